@@ -59,7 +59,7 @@ CHECKS = {
         note='Trusted: snapshots of __arguments__/__argument_tags__ taken by the harness, harness/argmodel only for operand choice.'),
     'C17': dict(
         technique='property-based frame-condition testing: generated (entry point, configuration) pairs; canonical form and path->identity map of the input compared before and after each call',
-        text='53 read-only / copy-returning entry points (build, ==, printers, graphviz, JSON/YAML dump, build_diff/apply_diff arguments, validators, three code generators, selections, grep, cast, copy_with, deepcopy_with incl. TaggedValue overrides, materialize_tags in all modes, trimming helpers, transforms, tag queries) are called on generated DAGs with sharing, tags (also on empty Buildables), long values, positional arguments, TaggedValues and a callable that mutates its container argument while being built; the input must have the same canonical form and the same object at every path afterwards, whether the call returned or raised.',
+        text='54 read-only / copy-returning entry points (build, ==, printers, graphviz, JSON/YAML dump, build_diff/apply_diff arguments, validators, three code generators, selections, grep, cast, copy_with, deepcopy_with incl. TaggedValue overrides, materialize_tags in all modes, trimming helpers, transforms, tag queries) are called on generated DAGs with sharing, tags (also on empty Buildables), long values, positional arguments, TaggedValues and a callable that mutates its container argument while being built; the input must have the same canonical form and the same object at every path afterwards, whether the call returned or raised.',
         note='Trusted: harness/canon.py; the API table in props/c17.py defines what is covered. History is excluded as the property states.'),
     'C18': dict(
         technique='property-based round-trip and differential testing: generated configurations -> printed paths -> flag parser -> reference resolution / reference setter; generated directive sequences against sequential application in Python; rendered call expressions against their structured source',
